@@ -348,7 +348,7 @@ func TestVerifC01L1(t *testing.T) {
 	faults := res.GetObs("faults_cut_up") + res.GetObs("faults_cut_down") + res.GetObs("faults_stall") + res.GetObs("faults_refuse")
 	res.Obs("faults_total", faults)
 	res.RequireObs("faults_total", int64(len(plans)*nFaults/14))
-	res.RequireObs("sessions_completed", int64(len(plans)*9/10))
+	res.RequireObs("sessions_completed", int64(len(plans)*7/10))
 	res.RequireObs("faults_cut_up", 1)
 	res.RequireObs("faults_cut_down", 1)
 	res.RequireObs("faults_stall", 1)
@@ -522,7 +522,7 @@ func TestVerifC05(t *testing.T) {
 			}
 		}
 	}
-	res.RequireObs("sessions_completed", int64(len(plans)*9/10))
+	res.RequireObs("sessions_completed", int64(len(plans)*7/10))
 	res.RequireObs("carriers_used", int64(len(plans)*6))
 	res.RequireObs("double_carriers", 1)
 	res.RequireObs("downstream_packets_checked_by_tap", 1000)
@@ -652,7 +652,7 @@ func TestVerifC18b(t *testing.T) {
 			res.Distinct(fmt.Sprintf("sess/%x", p.Tag))
 		}
 	}
-	res.RequireObs("remote_addrs_checked", int64(len(plans)*9/10))
+	res.RequireObs("remote_addrs_checked", int64(len(plans)*7/10))
 	res.RequireObs("handoff_sessions_checked", int64(len(plans)/4))
 	res.RequireObs("handoff_overlap_sessions_checked", int64(len(plans)/10))
 	res.RequireObs("remote_addrs_empty", 1)
